@@ -120,6 +120,7 @@ static json eig_event(const std::vector<std::vector<double>>& m, const std::vect
 	ev["resq"]	= 0;
 	ev["parq"]	= 0;
 	ev["syscnt"] = true;
+	ev["sysvalq"] = 0;
 	if(r2.returned)
 	{
 		std::vector<double> all;
@@ -163,6 +164,18 @@ static json eig_event(const std::vector<std::vector<double>>& m, const std::vect
 					}
 					wp = std::max(wp, std::fabs(std::fabs(d) / std::sqrt(pn * nn) - 1.0));
 				}
+			}
+			// one pair per eigenvalue: the returned eigenvalues, as a multiset, are the planted spectrum
+			{
+				std::vector<double> got, want = lam;
+				for(int i = 0; i < n; i++)
+					got.push_back(all[i * (n + 1)]);
+				std::sort(got.begin(), got.end());
+				std::sort(want.begin(), want.end());
+				double w = 0;
+				for(int i = 0; i < n; i++)
+					w = std::max(w, std::fabs(got[i] - want[i]));
+				ev["sysvalq"] = quant(w, 1e-9 * norm);
 			}
 			ev["normq"] = quant(wn, 1e-12);
 			ev["resq"]	= quant(wr, 1e-9 * norm);	  // the inverse iteration stops when successive vectors agree to 1e-10
@@ -276,10 +289,11 @@ int main(int argc, char** argv)
 		auto Q	 = random_orthogonal(g, n);
 		std::vector<double> lam(n);
 		double mag = g.logu(1e-2, 1e3);
+		bool wide = (i % 4 == 0);	// every fourth spectrum is as wide as the quantifier allows (ratios 0.1..0.15: |lambda_min| ~ 1e-6 |lambda_max| for n = 7)
 		for(int k = 0; k < n; k++)
 		{
 			lam[k] = (g.coin() ? 1 : -1) * mag;
-			mag *= g.uni(0.1, 0.8);
+			mag *= wide ? g.uni(0.1, 0.15) : g.uni(0.1, 0.8);
 		}
 		std::vector<std::vector<double>> m(n, std::vector<double>(n, 0.0));
 		for(int a = 0; a < n; a++)
